@@ -366,7 +366,13 @@ class RangeDomain:
             r = self._inherit_call(ex, fk, args, term, fr, ih)
             if r is not NotImplemented:
                 return r
-        if fr is not None and (term.get("target") is None or d.startswith(PANIC_DEFS)):
+        may_panic = fr is not None and (term.get("target") is None or d.startswith(PANIC_DEFS))
+        if fr is not None and not may_panic and n in ("unwrap", "expect", "unwrap_err", "expect_err") and d.startswith(("core::option", "core::result")):
+            # reached with a value that is not known to be Some / Ok: the panic inside the library call is reachable
+            v0 = deref_value(ex, args[0]) if args else None
+            good = ("Some", "Ok") if n in ("unwrap", "expect") else ("Err",)
+            may_panic = not (isinstance(v0, Adt) and v0.variant in good)
+        if may_panic:
             for i, blk in enumerate(fr.body.blocks):
                 if blk["term"] is term:
                     self.panics.setdefault((fr.body.path, i), set()).add(getattr(self, "root", None))
